@@ -182,10 +182,15 @@ macro_rules! impl_conversion_to_float {
                     } else if top_bit < $lb {
                         Err(ConversionError::LossOfPrecision)
                     } else {
-                        match <$t>::encode(
-                            value.0.numerator.try_into().unwrap(),
-                            -(den_bits as i16),
-                        ) {
+                        // move the trailing zeros of the numerator to the exponent, the rest has
+                        // too many significant bits if it doesn't fit in the mantissa type
+                        let num_zeros = value.0.numerator.trailing_zeros().unwrap();
+                        let exponent = num_zeros as isize - den_bits as isize;
+                        let mantissa = match (value.0.numerator >> num_zeros).try_into() {
+                            Ok(man) => man,
+                            Err(_) => return Err(ConversionError::LossOfPrecision),
+                        };
+                        match <$t>::encode(mantissa, exponent as i16) {
                             Exact(v) => Ok(v),
                             Inexact(v, _) => {
                                 if v.is_infinite() {
